@@ -132,3 +132,50 @@ def to_garr(table, cls=None, meta=None):
 
     cls = cls or GenomicArray
     return cls(to_frame(table), meta)
+
+
+# ------------------------------------------------------------------ row labels
+# cnvkit arrays keep pandas row labels through filtering and slicing: arr[mask] leaves gaps, arr[::k] / arr[k:] leave a
+# (strided / shifted) RangeIndex. Library code that aligns by label or mixes labels with positions is only exposed by such inputs.
+INDEX_SPECS = [None, None, None, [7, 1], [3, 2], [0, 2, "range"], [5, 1, "range"], [1, 3, "range"], "gaps"]
+
+
+def index_spec():
+    return st.sampled_from(INDEX_SPECS)
+
+
+def relabel(df, spec):
+    """Give `df` (in place) the row labels described by `spec`; returns df."""
+    import numpy as np
+    import pandas as pd
+
+    n = len(df)
+    if spec is None or n == 0:
+        return df
+    if spec == "gaps":
+        # what boolean filtering leaves: increasing labels with irregular gaps
+        df.index = np.cumsum(1 + (np.arange(n) * 7 % 3))
+    elif len(spec) > 2 and spec[2] == "range":
+        df.index = pd.RangeIndex(spec[0], spec[0] + spec[1] * n, spec[1])
+    else:
+        df.index = np.arange(n) * spec[1] + spec[0]
+    return df
+
+
+def index_label(spec):
+    if spec is None:
+        return "index:default"
+    if spec == "gaps":
+        return "index:gaps"
+    return "index:strided-RangeIndex" if len(spec) > 2 else "index:non-default"
+
+
+def spec_for(case, salt=""):
+    """Row-label variant for a case: a pure function of the case JSON (so replays see the same labels)."""
+    import json
+    import zlib
+
+    if isinstance(case, dict) and "row_labels" in case:
+        return case["row_labels"]  # explicit (regression files)
+    h = zlib.crc32((salt + json.dumps(case, sort_keys=True, default=str)).encode())
+    return INDEX_SPECS[h % len(INDEX_SPECS)]
